@@ -293,6 +293,10 @@ func IntProps(propContainer map[string]object.PanObject) map[string]object.PanOb
 				}
 
 				res := self.Value + other.Value
+				// NOTE: the successor is not representable: a range iterator must stop there instead of wrapping around
+				if (other.Value > 0 && res < self.Value) || (other.Value < 0 && res > self.Value) {
+					return object.NewStopIterErr("iter stopped")
+				}
 				// NOTE: Int's descendants also call this
 				return object.NewInheritedInt(args[0].Proto(), res)
 			},
